@@ -89,7 +89,10 @@ def check(F, ck, rule):
                     calls = [c for c in walk(ex) if c.get('k') == 'MCall' and c['n'] in ('read_field_ext_vec', 'read_field_vec') and c.get('a')]
                     if len(calls) == 1:
                         rlen[f] = calls[0]
-    fl = flow.Flow(F, vs)
+    def _inl(c, d, ev):
+        f2 = F.fns.get(c)
+        return f2 if (f2 is not None and f2.body is not None and not f2.trait and f2.file == vs.file and f2.owner is None and f2.d != vs.d) else None
+    fl = flow.Flow(F, vs, inline=_inl, depth=2)
     vlen = {}
     for g in fl.events:
         if g.kind != 'guard':
@@ -110,17 +113,17 @@ def check(F, ck, rule):
         if f not in rlen or f not in vlen:
             ck.ob(rule, 'opening-len:' + f, False, 'length of OpeningSet.%s not found in %s' % (f, 'the decoder' if f not in rlen else 'the shape validator'), '%s:%d' % (ro.file, ro.line))
             continue
+        n += 1
         try:
             pr = E.ev(ro, rlen[f]['a'][0], env, 4)
             vn = vlen[f][0]
             while vn.get('k') in ('Ref', 'Un', 'Cast') or (vn.get('k') == 'Local' and vn['id'] in fl.alias):
                 vn = fl.alias[vn['id']] if vn.get('k') == 'Local' else vn['e']
-            pv = E.ev(vlen[f][1], vn, venv, 4)
-            n += 1
+            pv = E.ev(vlen[f][1], vn, venv if vlen[f][1].d == vs.d else {}, 4)
             ok = pr == pv
             ck.ob(rule, 'opening-len:' + f, ok, 'decoder and validator agree: %s' % poly.show(pv) if ok else
                   'DECODER LENGTH MISMATCH: read_opening_set reads %s values for OpeningSet.%s but validate_proof_shape requires %s: every decoded proof of a circuit where they differ is rejected (or mis-shaped)' %
                   (poly.show(pr), f, poly.show(pv)), rlen[f].get('s'))
         except poly.Unknown as ex:
             ck.observe('%s opening %s not applicable: expression outside the polynomial normaliser (%s)' % (rule, f, ex))
-    ck.floor(rule, 'opening-set lengths compared between decoder and validator', n, 9)
+    ck.floor(rule, 'opening-set lengths located in both decoder and validator', n, 9)
